@@ -8,7 +8,7 @@
     ingredient of it (character data, attribute values, character references, CDATA text); the tree level is decided
     by the document-level oracle of checks/C12.py on the real library. *)
 From XV Require Import C05.Spec05 C05.Model05 C12.Spec12 C12.Model12
-  C12.Proofs12a C12.Proofs12b C12.Proofs12c C12.Proofs12d.
+  C12.Proofs12a C12.Proofs12b C12.Proofs12c C12.Proofs12d C12.Proofs12e C12.Proofs12f.
 Local Open Scope N_scope.
 
 (** T12_escape_exact: the bytes of formatBuf are the transcoding of a character-wise map of the input ... *)
@@ -41,7 +41,7 @@ Print Assumptions T12_escape_rows.
 (** T12_escape_roundtrip (full): for every string of XML characters (UTF-16 units, XML 1.0 or 1.1), every
     canTranscodeTo that does not separate surrogate pairs: what the formatter writes for character data
     (CharEscapes) resp. an attribute value (AttrEscapes) is read back by an XML processor as the same string.
-    Hence &, <, >, CR are protected in text (and "]]>" can never appear), &, <, ", TAB, LF, CR in attribute values,
+    Hence &, <, >, CR are protected in text (and "]]>" can never appear), &, <, the double quote, TAB, LF, CR in attribute values,
     unrepresentable characters arrive as the references that denote them. *)
 Theorem T12_escape_roundtrip_text : forall x can s, can_uniform can -> xml_string x s = true ->
   unescape_parse false x (format16 can x CharEscapes UnRep_CharRef s) = Some s.
@@ -85,15 +85,38 @@ Theorem T12_cdata_text : forall can s, forallb can s = true -> flat_map citem_te
 Proof. exact cdata_text. Qed.
 Print Assumptions T12_cdata_text.
 
-(** partial: that no written section contains "]]>" and that the specification parser reads the sections back as
-    the data is established only for every string over the alphabet "]", ">", "a" up to length 7 *)
-Theorem T12_cdata_sections_bounded :
-  forallb (sections_ok (fun _ => true)) (all_strings [93; 62; 97] 7) = true /\
-  forallb (fun s => match parse_sections 20 (flat_map citem_out (cdata_items (fun _ => true) s)) with
-                    | Some t => list_eqb t s | None => false end)
-          (all_strings [93; 62; 97] 7) = true.
-Proof. exact (conj cdata_sections_bounded cdata_reparse_bounded). Qed.
-Print Assumptions T12_cdata_sections_bounded.
+(** ... and none of the written sections contains the end marker "]]>" *)
+Theorem T12_cdata_sections : forall can s, forallb can s = true ->
+  forall it, In it (cdata_items can s) -> match it with CSect l => no_cdata_end l = true | CRef _ => True end.
+Proof. exact cdata_sections. Qed.
+Print Assumptions T12_cdata_sections.
+
+(** ... and the specification parser ("<![CDATA[", then text up to the first "]]>", repeated; Spec12.scan_cdata)
+    reads the written sections back as the data: no character is lost, no section ends early *)
+Theorem T12_cdata_reparse : forall can s, forallb can s = true ->
+  parse_sections (S (length s)) (flat_map citem_out (cdata_items can s)) = Some s.
+Proof. exact cdata_reparse. Qed.
+Print Assumptions T12_cdata_reparse.
+
+(** T12_roundtrip, leaf level (partial: the tree level is not proved): on the serializer model, a Text node, an
+    attribute and a CDATASection node are either refused with an error or written so that the specification scanners
+    read the node's data back *)
+Theorem T12_roundtrip_text_node : forall cf s out, c_fixed cf = true -> can_uniform (c_can cf) -> units16 s ->
+  ser_node cf (Text s) = Ok out -> unescape_parse false (c_xml11 cf) out = Some s.
+Proof. exact text_node_roundtrip. Qed.
+Print Assumptions T12_roundtrip_text_node.
+
+Theorem T12_roundtrip_attribute : forall cf n v out, c_fixed cf = true -> can_uniform (c_can cf) -> units16 v ->
+  ser_attrs cf [(n, v)] = Ok out ->
+  out = [32] ++ data16 cf NoEscapes n ++ [61; 34] ++ data16 cf AttrEscapes v ++ [34] /\
+  unescape_parse true (c_xml11 cf) (data16 cf AttrEscapes v) = Some v.
+Proof. exact attr_roundtrip. Qed.
+Print Assumptions T12_roundtrip_attribute.
+
+Theorem T12_roundtrip_cdata_node : forall cf s out, c_fixed cf = true -> c_split cf = true ->
+  forallb (c_can cf) s = true -> ser_node cf (CData s) = Ok out -> parse_sections (S (length s)) out = Some s.
+Proof. exact cdata_node_roundtrip. Qed.
+Print Assumptions T12_roundtrip_cdata_node.
 
 (** the behaviour as found, refuted on the model of the unrepaired code *)
 Theorem T12_cdata_split_old_refuted :
